@@ -1,6 +1,6 @@
 """C20 RISC-V 64 JIT output is equivalent to the interpreter."""
 import astq
-from rules import genreset, jit, jitcross, rv64, rvhsem, rtpreserve, rvdsread, aeshw
+from rules import genreset, jit, jitcross, rv64, rvhsem, rtpreserve, rvdsread, aeshw, rvfp
 
 LEVEL = 'other'
 TECHNIQUE = ('cross-target parse (clang --target=riscv64) of the back-end that this host never compiles + sibling agreement with the interpreter on resolved-AST feature vectors, known-bits evaluation of emitted constants and of branch-offset bit scatter against the ISA encoding tables, finite enumeration of the literal-pool index, max-path code-size bound against the assembled template'
@@ -28,6 +28,10 @@ EXPLANATION += ' RV-LOOPLOAD, RV-DSREAD-LIGHT.'
 CLAIM += (' The load half of the loop executed on terms: r_j ^= quadword j at the first address, f / e lanes converted from the sixteen 32-bit integers at the second address in order, e lanes masked with one and-mask and the or-mask of their lane parity (RV-LOOPLOAD, both ISA variants).')
 
 EXPLANATION += ' RV-DSITEM-HSEM.'
+
+EXPLANATION += ' RV-FP-HSEM.'
+CLAIM = CLAIM.replace('The floating-point and branch handlers remain covered by the structural and bit-level rules only;', 'The branch handlers remain covered by the bit-level rules;')
+CLAIM += (' The nine floating-point handlers are validated at word level on f registers that hold terms (two scalar registers per VM register): operation, operand registers and lanes of specification 5.3, memory operands from the two 32-bit integers at the masked scratchpad address, FDIV_M through the and-mask and the or-mask of its lane as in the loop head, FSCAL_R with the register the prologue loads 0x80F0000000000000 into; the lane functions regLo / regHi agree with the hand-written loop head and prologue (RV-FP-HSEM).')
 
 
 def run(ctx, R):
@@ -63,3 +67,4 @@ def run(ctx, R):
     genreset.rule_ctor_init(ctx, R, 'rv64')
     rtpreserve.rule_store_order(ctx, R, 'rv64')
     rvdsread.rule_dsitem(ctx, R)
+    rvfp.rule_fp_hsem(ctx, R)
